@@ -37,6 +37,20 @@ func suiteC02(c *ctx) {
 			Src: SrcSpec{Kind: "bufio", Buf: r.Pick([]int{16, 64, 4096}), Chunk: r.PickS([]string{"one", "one", "rand"}), Seed: r.U64(), Term: "eof"}, Ctor: "new", Reads: r.PickS([]string{"big", "k3", "rand"}), RSeed: r.U64()}
 		cases = append(cases, rc)
 	}
+	for i := 0; i < c.n(48); i++ {
+		// a short block whose last literals and end-of-block code share one packed entry ends at the
+		// edge of the output window (one before .. two after); as the final block with a long suffix
+		// buffered behind it, or followed by further blocks
+		rc := &RCase{Prop: "C02", ID: fmt.Sprintf("C02-b%d", i), API: "flate", Stream: StreamSpec{Kind: "synth", Synth: &SynthSpec{Seed: r.U64(), Blocks: 2, Size: i % 2, Kinds: "B"}}, Cut: -1,
+			Src: SrcSpec{Kind: "bufio", Buf: r.Pick([]int{64, 4096, 8192, 65536}), Chunk: r.PickS([]string{"all", "all", "rand", "one"}), Seed: r.U64(), Term: "eof"}, Ctor: "new", Reads: r.PickS([]string{"big", "k3", "rand"}), RSeed: r.U64()}
+		if i%2 == 1 || i%8 == 0 {
+			rc.Suffix = hexs(r.Bytes(5000 + r.Intn(4000)))
+		}
+		if i%6 == 5 {
+			rc.Src = SrcSpec{Kind: "bytes.Reader"}
+		}
+		cases = append(cases, rc)
+	}
 	parallelJ(len(cases), func(i int) interface{} { return cases[i] }, func(i int) { checkC02(c.rep, c.pool, cases[i]) })
 }
 
@@ -145,6 +159,9 @@ func suiteC04(c *ctx) {
 		if i%9 == 4 {
 			s = StreamSpec{Kind: "synth", Synth: &SynthSpec{Seed: r.U64(), Blocks: 3, Size: i % 2, Kinds: "E"}}
 		}
+		if i%9 == 7 {
+			s = StreamSpec{Kind: "synth", Synth: &SynthSpec{Seed: r.U64(), Blocks: 2, Size: (i / 9) % 2, Kinds: "B"}}
+		}
 		if s.Kind == "synth" && s.Synth.Blocks > 50 {
 			s.Synth.Blocks = 300
 		}
@@ -208,6 +225,18 @@ func suiteC05(c *ctx) {
 			rc.Suffix = ""
 		}
 		rc.Src = SrcSpec{Kind: srcKinds[r.Intn(len(srcKinds))], Buf: r.Pick(bufSizes), Chunk: chunkStyles[r.Intn(len(chunkStyles))], Seed: r.U64(), Term: "eof"}
+		cases = append(cases, rc)
+	}
+	for i := 0; i < c.n(40); i++ {
+		// the final block ends at the edge of the decoder's output window with its end-of-block code
+		// inside a packed multi-symbol entry; a long suffix is buffered behind it
+		rc := &RCase{Prop: "C05", ID: fmt.Sprintf("C05-b%d", i), API: "flate", Stream: StreamSpec{Kind: "synth", Synth: &SynthSpec{Seed: r.U64(), Blocks: 2, Size: 1 - (i%4)/3, Kinds: "B"}}, Cut: -1,
+			Ctor: r.PickS([]string{"new", "reset"}), Reads: r.PickS([]string{"big", "k257", "rand"}), RSeed: r.U64()}
+		rc.Suffix = hexs(r.Bytes(5000 + r.Intn(4000)))
+		if i%5 == 0 {
+			rc.Suffix = "0000ffff0300" + hexs(r.Bytes(6000))
+		}
+		rc.Src = SrcSpec{Kind: r.PickS([]string{"bufio", "bufio", "bytes.Reader", "bytes.Buffer"}), Buf: r.Pick([]int{4096, 8192, 16384, 65536}), Chunk: r.PickS([]string{"all", "all", "rand"}), Seed: r.U64(), Term: "eof"}
 		cases = append(cases, rc)
 	}
 	parallelJ(len(cases), func(i int) interface{} { return cases[i] }, func(i int) { checkC05(c.rep, c.pool, cases[i]) })
